@@ -296,3 +296,72 @@ Qed.
 (* the published root hash of a canonical tree is the specification's hash of its leaves *)
 Corollary canon_root_hash cfg t : canon_root t -> root_hash cfg true t = spec_root_hash cfg (sleaves t).
 Proof. intros H. unfold spec_root_hash. rewrite (canon_root_spec t H). reflexivity. Qed.
+
+(* ------------------------------------------------------------------ the specification does not depend on the order of the leaves *)
+From Coq Require Import Permutation.
+
+Lemma max_epoch_cons x S : max_epoch (x :: S) = N.max (sl_epoch x) (max_epoch S).
+Proof. unfold max_epoch at 1. cbn [fold_left]. rewrite fold_max_acc. lia. Qed.
+
+Lemma max_epoch_perm S S' : Permutation S S' -> max_epoch S = max_epoch S'.
+Proof.
+  induction 1 as [|x l l' _ IH|x y l|l l' l'' _ IH1 _ IH2]; [reflexivity| | |congruence].
+  - rewrite !max_epoch_cons, IH. reflexivity.
+  - rewrite !max_epoch_cons. lia.
+Qed.
+
+Lemma min_epoch_perm S S' : Permutation S S' -> min_epoch S = min_epoch S'.
+Proof.
+  induction 1 as [|x l l' HP IH|x y l|l l' l'' _ IH1 _ IH2]; [reflexivity| | |congruence].
+  - rewrite !min_epoch_cons. destruct l as [|a l0]; destruct l' as [|b l0']; try reflexivity.
+    + apply Permutation_nil in HP. discriminate.
+    + apply Permutation_sym, Permutation_nil in HP. discriminate.
+    + rewrite IH. reflexivity.
+  - rewrite !min_epoch_cons. destruct l as [|a l0]; [lia|]. lia.
+Qed.
+
+Lemma lcp_all_perm S S' : Permutation S S' -> lcp_all S = lcp_all S'.
+Proof.
+  intros HP. destruct S as [|x r].
+  - apply Permutation_nil in HP. subst. reflexivity.
+  - assert (Hne : x :: r <> []) by discriminate.
+    assert (Hne' : S' <> []) by (intros ->; apply Permutation_sym, Permutation_nil in HP; discriminate).
+    apply prefixb_antisym.
+    + apply lcp_all_greatest; [exact Hne'|]. intros z Hz. apply lcp_all_prefix. eapply Permutation_in; [apply Permutation_sym; exact HP | exact Hz].
+    + apply lcp_all_greatest; [exact Hne|]. intros z Hz. apply lcp_all_prefix. eapply Permutation_in; [exact HP | exact Hz].
+Qed.
+
+Lemma filter_perm {A} (p : A -> bool) l l' : Permutation l l' -> Permutation (filter p l) (filter p l').
+Proof.
+  induction 1 as [|x l l' _ IH|x y l|l l' l'' _ IH1 _ IH2]; cbn [filter].
+  - constructor.
+  - destruct (p x); [constructor|]; exact IH.
+  - destruct (p x), (p y); try apply Permutation_refl. apply perm_swap.
+  - eapply Permutation_trans; eassumption.
+Qed.
+
+Lemma spec_sub_perm : forall fuel S S', Permutation S S' -> spec_sub fuel S = spec_sub fuel S'.
+Proof.
+  induction fuel as [|f IH]; intros S S' HP; [reflexivity|].
+  cbn [spec_sub].
+  destruct S as [|x [|y r]].
+  - apply Permutation_nil in HP. subst. reflexivity.
+  - apply Permutation_length_1_inv in HP. subst. reflexivity.
+  - destruct S' as [|x' [|y' r']].
+    + apply Permutation_sym, Permutation_nil in HP. discriminate.
+    + apply Permutation_sym, Permutation_length_1_inv in HP. discriminate.
+    + rewrite (lcp_all_perm _ _ HP), (max_epoch_perm _ _ HP), (min_epoch_perm _ _ HP).
+      set (k := length (lcp_all (x' :: y' :: r'))).
+      rewrite (IH _ _ (filter_perm (fun z => negb (bit_at k z)) _ _ HP)).
+      rewrite (IH _ _ (filter_perm (bit_at k) _ _ HP)). reflexivity.
+Qed.
+
+Theorem spec_root_perm S S' : Permutation S S' -> spec_root S = spec_root S'.
+Proof.
+  intros HP. unfold spec_root. rewrite (max_epoch_perm _ _ HP), (min_epoch_perm _ _ HP).
+  rewrite (spec_sub_perm 300 _ _ (filter_perm (fun x => negb (bit_at 0 x)) _ _ HP)).
+  rewrite (spec_sub_perm 300 _ _ (filter_perm (bit_at 0) _ _ HP)). reflexivity.
+Qed.
+
+Corollary canon_root_unique t t' : canon_root t -> canon_root t' -> Permutation (sleaves t) (sleaves t') -> t = t'.
+Proof. intros H H' P. rewrite <- (canon_root_spec t H), <- (canon_root_spec t' H'). apply spec_root_perm. exact P. Qed.
